@@ -132,6 +132,10 @@ func tableOracle(c TableCase, o *h.Obs) *h.Fail {
 		// the Go identifier of that name, referenced at compile time
 		ref, ok := refValues[c.Pkg+"."+c.Name]
 		if !ok {
+			if fr, isFunc := funcRefs[c.Pkg+"."+c.Name]; isFunc && reflect.ValueOf(fr).Kind() == reflect.Func {
+				// the Go identifier of that name is a function; the table lists something that is not one
+				return h.Failf("C19|table|function-entry-not-a-function|"+o.Key, "Packages[%q][%q] is a %s value (%v); the Go identifier %s.%s is a function of type %T", c.Pkg, c.Name, v.Type(), v, path, c.Name, fr)
+			}
 			o.Class("table:variable_without_reference_value")
 			return nil
 		}
@@ -166,6 +170,12 @@ func tableOracle(c TableCase, o *h.Obs) *h.Fail {
 		return nil
 	}
 	o.Class("table:function")
+	if fr, ok := funcRefs[c.Pkg+"."+c.Name]; ok {
+		o.Class("table:function_compared_with_go_identifier")
+		if rf := reflect.ValueOf(fr); rf.Kind() != reflect.Func || rf.Type() != v.Type() || rf.Pointer() != v.Pointer() {
+			return h.Failf("C19|table|wrong-function|"+o.Key, "Packages[%q][%q] (type %s) is not the Go function %s.%s (type %T)", c.Pkg, c.Name, v.Type(), path, c.Name, fr)
+		}
+	}
 	fn := runtime.FuncForPC(v.Pointer())
 	if fn == nil {
 		return h.Failf("C19|table|unknown-function|"+o.Key, "Packages[%q][%q]: no function information", c.Pkg, c.Name)
